@@ -8,48 +8,41 @@ Open Scope string_scope.
 (* what a call of resolve_var does *)
 Inductive vres : Type :=
 | RNone                       (* returns None: the token has no var() *)
-| RToks (l : list tok)        (* returns the substituted component values *)
-| RTypeError.                 (* arguments.extend(None): TypeError *)
+| RToks (l : list tok).       (* returns the substituted component values *)
 
 (* for value in values: resolved = rv(value); computed_value.extend((value,) if resolved is None else resolved)
    None = out of fuel *)
-Fixpoint subst_each (rv : tok -> option vres) (values : list tok) : option vres :=
+Fixpoint subst_each (rv : tok -> option vres) (values : list tok) : option (list tok) :=
   match values with
-  | [] => Some (RToks [])
+  | [] => Some []
   | v :: r =>
       match rv v with
       | None => None
-      | Some RTypeError => Some RTypeError
       | Some res =>
-          let here := match res with RToks l => l | _ => [v] end in
+          let here := match res with RToks l => l | RNone => [v] end in
           match subst_each rv r with
-          | Some (RToks rest) => Some (RToks (here ++ rest)%list)
-          | other => other
+          | Some rest => Some (here ++ rest)%list
+          | None => None
           end
       end
   end.
 
-(* for argument in token.arguments: function arguments are replaced by resolve_var(argument) - which is None
-   when the argument has no var() - the others are kept *)
-Fixpoint rebuild (rv : tok -> option vres) (arguments : list tok) : option vres :=
+(* for argument in token.arguments: a function argument is replaced by resolve_var(argument), or kept when that
+   is None; the other arguments are kept *)
+Fixpoint rebuild (rv : tok -> option vres) (arguments : list tok) : option (list tok) :=
   match arguments with
-  | [] => Some (RToks [])
+  | [] => Some []
   | a :: r =>
       let here := if is_func a then
                     match rv a with
                     | None => None
-                    | Some RNone => Some RTypeError
-                    | Some x => Some x
+                    | Some RNone => Some [a]
+                    | Some (RToks l) => Some l
                     end
-                  else Some (RToks [a]) in
-      match here with
-      | None => None
-      | Some (RToks l) =>
-          match rebuild rv r with
-          | Some (RToks rest) => Some (RToks (l ++ rest)%list)
-          | other => other
-          end
-      | Some x => Some x
+                  else Some [a] in
+      match here, rebuild rv r with
+      | Some l, Some rest => Some (l ++ rest)%list
+      | _, _ => None
       end
   end.
 
@@ -58,7 +51,8 @@ Section Resolve.
      [] when it is not defined; keys are the names with every "-" replaced by "_" *)
   Variable env : string -> list tok.
 
-  Fixpoint resolve_var (fuel : nat) (token : tok) : option vres :=
+  (* parents = parent_variables: the custom properties whose value is being substituted *)
+  Fixpoint resolve_var (fuel : nat) (parents : list string) (token : tok) : option vres :=
     match fuel with
     | O => None
     | S f =>
@@ -66,60 +60,73 @@ Section Resolve.
         else match token with
              | TFunc n ln args =>
                  if negb (String.eqb ln "var") then
-                   match rebuild (resolve_var f) args with
-                   | Some (RToks arguments) =>
+                   match rebuild (resolve_var f parents) args with
+                   | Some arguments =>
                        let token' := TFunc n ln arguments in
-                       (* return resolve_var(computed, token, parent_style) or (token,) *)
-                       match resolve_var f token' with
+                       (* return resolve_var(computed, token, ...) or (token,) *)
+                       match resolve_var f parents token' with
                        | None => None
-                       | Some RTypeError => Some RTypeError
                        | Some RNone => Some (RToks [token'])
                        | Some (RToks []) => Some (RToks [token'])
                        | Some (RToks l) => Some (RToks l)
                        end
-                   | other => other
+                   | None => None
                    end
                  else
                    match fn_args args with
                    | TIdent v _ :: default =>
-                       let value := env (underscore v) in
-                       subst_each (resolve_var f) (match value with [] => default | _ => value end)
+                       let variable_name := underscore v in
+                       if str_in variable_name parents then Some (RToks [])   (* cyclic: as if undefined, no fallback *)
+                       else
+                         let values := env variable_name in
+                         let parents' := match values with [] => parents | _ => (parents ++ [variable_name])%list end in
+                         match subst_each (resolve_var f parents') (match values with [] => default | _ => values end) with
+                         | Some l => Some (RToks l)
+                         | None => None
+                         end
                    | _ => Some RNone     (* not reached: has_var *)
                    end
              | _ => Some RNone           (* not reached: has_var *)
              end
     end.
 
-  (* ComputedStyle.__missing__, `if pending:` - the tokens handed to Pending.solve *)
-  Definition solved_tokens (fuel : nat) (tokens : list tok) : option vres :=
-    subst_each (resolve_var fuel) tokens.
+  (* ComputedStyle.__missing__, `if pending:` - the tokens handed to Pending.solve: every token of the
+     declaration is resolved by itself, with no memory of the others *)
+  Definition solved_tokens (fuel : nat) (tokens : list tok) : option (list tok) :=
+    subst_each (resolve_var fuel []) tokens.
 End Resolve.
 
 (* ------------------------------------------------------------------ the property's reading: substitution *)
 (* Textual substitution (CSS Custom Properties 1, section 3) over the same trees: a var() function is
    replaced by the value of its custom property, itself substituted, or by its fallback when the property
    is not defined; everything else stays.  [key] maps the name written in var() to the name the value is
-   stored under, [fallback] extracts the fallback from the arguments. *)
+   stored under, [fallback] extracts the fallback from the arguments.  parents = the properties being
+   substituted: a reference back to one of them (a cycle) is cut - the implementation's cut gives nothing. *)
 Section Subst.
   Variable env : string -> list tok.
   Variable key : string -> string.
   Variable fallback : list tok -> list tok.
   Variable var_name : list tok -> option string.     (* the custom property named by the arguments of var() *)
 
-  Inductive Subst : tok -> list tok -> Prop :=
-  | S_plain t : has_var t = false -> Subst t [t]
-  | S_var n ln args x r :
+  Inductive Subst : list string -> tok -> list tok -> Prop :=
+  | S_plain ps t : has_var t = false -> Subst ps t [t]
+  | S_cycle ps n ln args x :
       has_var (TFunc n ln args) = true -> String.eqb ln "var" = true ->
-      var_name args = Some x ->
-      SubstL (match env (key x) with [] => fallback args | v => v end) r ->
-      Subst (TFunc n ln args) r
-  | S_fun n ln args args' :
+      var_name args = Some x -> str_in (key x) ps = true ->
+      Subst ps (TFunc n ln args) []
+  | S_var ps n ln args x r :
+      has_var (TFunc n ln args) = true -> String.eqb ln "var" = true ->
+      var_name args = Some x -> str_in (key x) ps = false ->
+      SubstL (match env (key x) with [] => ps | _ => (ps ++ [key x])%list end)
+             (match env (key x) with [] => fallback args | v => v end) r ->
+      Subst ps (TFunc n ln args) r
+  | S_fun ps n ln args args' :
       has_var (TFunc n ln args) = true -> String.eqb ln "var" = false ->
-      SubstL args args' ->
-      Subst (TFunc n ln args) [TFunc n ln args']
-  with SubstL : list tok -> list tok -> Prop :=
-  | SL_nil : SubstL [] []
-  | SL_cons t r a b : Subst t a -> SubstL r b -> SubstL (t :: r) (a ++ b)%list.
+      SubstL ps args args' ->
+      Subst ps (TFunc n ln args) [TFunc n ln args']
+  with SubstL : list string -> list tok -> list tok -> Prop :=
+  | SL_nil ps : SubstL ps [] []
+  | SL_cons ps t r a b : Subst ps t a -> SubstL ps r b -> SubstL ps (t :: r) (a ++ b)%list.
 End Subst.
 
 (* the implementation's choices *)
@@ -136,21 +143,6 @@ Fixpoint after_first_comma (args : list tok) : list tok :=
   | a :: r => if is_comma a then r else after_first_comma r
   end.
 Definition css_fallback (args : list tok) : list tok := remove_whitespace (after_first_comma args).
-
-(* a token the rebuilding loop can handle: inside a function that has a var() and is not var() itself, every
-   function argument has a var() too (a var()-free one raises TypeError) - checked wherever resolve_var goes *)
-Fixpoint regular (t : tok) : bool :=
-  match t with
-  | TFunc _ ln args =>
-      if has_var t then
-        (fix all (l : list tok) : bool :=
-           match l with
-           | [] => true
-           | a :: r => (if is_func a then (String.eqb ln "var" || has_var a) && regular a else true) && all r
-           end) args
-      else true
-  | _ => true
-  end.
 
 (* every custom property that resolve_var may look up from t (through function arguments and fallbacks) has a
    rank below n *)
@@ -172,7 +164,7 @@ Fixpoint refs_lt (rk : string -> nat) (n : nat) (t : tok) : bool :=
 
 (* acyclic definitions: the value of a custom property only refers to properties of lower rank *)
 Definition ranked (env : string -> list tok) (rk : string -> nat) : Prop :=
-  forall k, Forall (fun t => refs_lt rk (rk k) t = true /\ regular t = true) (env k).
+  forall k, Forall (fun t => refs_lt rk (rk k) t = true) (env k).
 
 (* ------------------------------------------------------------------ judge of the stream var-direct *)
 Definition env_of (l : list (string * list tok)) (k : string) : list tok :=
@@ -183,15 +175,13 @@ Definition env_of (l : list (string * list tok)) (k : string) : list tok :=
      end) l.
 
 (* case = (env as [(stored key, tokens)], tokens of the pending value, outcome of the implementation) ;
-   outcome: (0, l) = the solved tokens l ; (1, _) = TypeError ; (2, _) = RecursionError ; (3, _) = other.
-   bit 0: the model disagrees (out of fuel at 60 = the model of RecursionError). *)
+   outcome: (0, l) = the solved tokens l ; (n, _) = an exception.
+   bit 0: the model disagrees. *)
 Definition var_judge (c : list (string * list tok) * list tok * (nat * list tok)) : nat :=
   match c with
   | (e, tokens, (code, out)) =>
       match solved_tokens (env_of e) 60 tokens, code with
-      | Some (RToks l), 0%nat => if toks_eqb l out then 0%nat else 1%nat
-      | Some RTypeError, 1%nat => 0%nat
-      | None, 2%nat => 0%nat
+      | Some l, 0%nat => if toks_eqb l out then 0%nat else 1%nat
       | _, _ => 1%nat
       end
   end.
